@@ -84,7 +84,7 @@ Lemma priv_set_field : forall h l k v h',
 Proof.
   unfold set_field. intros h l k v h' P Hk H.
   destruct (get h l) as [[m|xs|c fs|m]|] eqn:E; inversion H. apply priv_upd; auto.
-  assert (Pn := priv_get _ _ _ P E). simpl in *. apply assoc_set_keys; auto.
+  assert (Pn := priv_get _ _ _ P E). simpl in *. apply (assoc_set_keys (fun k => setattr_allowed k = true)); auto.
 Qed.
 
 Lemma priv_del_field : forall h l k h', private_attrs h -> del_field h l k = Some h' -> private_attrs h'.
@@ -92,7 +92,7 @@ Proof.
   unfold del_field. intros h l k h' P H.
   destruct (get h l) as [[m|xs|c fs|m]|] eqn:E; try discriminate.
   destruct (assoc k fs); inversion H. apply priv_upd; auto.
-  assert (Pn := priv_get _ _ _ P E). simpl in *. apply assoc_del_keys; auto.
+  assert (Pn := priv_get _ _ _ P E). simpl in *. apply (assoc_del_keys (fun k => setattr_allowed k = true)); auto.
 Qed.
 
 Lemma combine_keys : forall (P : ustring -> Prop) ks (vs : list val),
@@ -105,7 +105,7 @@ Qed.
 Lemma priv_rebuild : forall nd s vs, private_node nd -> shape_of nd = Some s -> private_node (rebuild s vs).
 Proof.
   intros [m|xs|c fs|m] s vs P E; inversion E; subst; simpl; auto.
-  apply combine_keys. simpl in P. rewrite Forall_forall in *. intros k Hk.
+  apply (combine_keys (fun k => setattr_allowed k = true)). simpl in P. rewrite Forall_forall in *. intros k Hk.
   apply in_map_iff in Hk. destruct Hk as ([k' v] & <- & Hin). apply (P _ Hin).
 Qed.
 
@@ -131,7 +131,7 @@ Ltac inv_eq :=
   | H : Some _ = None |- _ => discriminate H
   end.
 
-Ltac crunch H := repeat (first [ inv_eq | brk H ]).
+Ltac crunch H := repeat (first [ inv_eq | brk H; try cbv beta iota in H ]).
 
 Create HintDb priv.
 #[export] Hint Resolve priv_alloc priv_set_item priv_del_item priv_append_item priv_update_items
